@@ -73,6 +73,9 @@ func (h accountsResourceHandler) ResolveFilter(opts common.ResourceQuery[any], o
 		}
 		return fmt.Sprintf("%s %s ?", property, common.ConvertOperatorToSQL(operator)), []any{value}, nil
 	case balanceRegex.MatchString(property) || property == "balance":
+		if operator == queries.OperatorExists {
+			return "", nil, common.NewErrInvalidQuery("operator '%s' is not allowed for property '%s'", operator, property)
+		}
 
 		selectBalance := h.store.newScopedSelect().
 			Where("accounts_address = dataset.address")
